@@ -717,9 +717,13 @@ func (e *Engine) execBinOp(fr *Frame, st *State, ins *ssa.BinOp) Val {
 	}
 	if b, ok := xt.Underlying().(*types.Basic); ok && b.Info()&types.IsString != 0 {
 		if ins.Op == token.ADD {
-			// string concatenation: fresh string of the right length, contents unconstrained
+			// string concatenation: fresh string holding the bytes of x then those of y
 			x, y := e.term(fr, ins.X), e.term(fr, ins.Y)
 			ref := e.newRef(st)
+			if !fr.bound {
+				e.copyInto(fr, st, ref, tb.BV(0, 64), func(k *Term) *Term { return e.strByte(st, x, k) }, tb.Acc(x, 2), true)
+				e.copyInto(fr, st, ref, tb.Acc(x, 2), func(k *Term) *Term { return e.strByte(st, y, k) }, tb.Acc(y, 2), true)
+			}
 			return tb.Ctor("Str", ref, tb.BV(0, 64), tb.BVBin("bvadd", tb.Acc(x, 2), tb.Acc(y, 2)))
 		}
 		unsupported("string operator %s", ins.Op)
